@@ -85,3 +85,43 @@ func Verif_C02_opensent_reaction() {
 	verifAssert("accept-remembers-remote-id", f.remoteID == id)
 	verifCover("open-accepted")
 }
+
+// the capabilities handed to OnOpenMessage stay byte-exact whatever the remote sends behind its OPEN
+// (the reader runs ahead of the FSM: a receive buffer shared between messages would show here)
+func Verif_C02_open_then_pipelined_message() {
+	verifEngineOnly()
+	verifNote("OpenSent receives a valid OPEN carrying the 4-octet-AS capability and a second capability (symbolic code, 4 symbolic value bytes), immediately followed on the stream by one more message (UPDATE or NOTIFICATION, symbolic body of 2..32 bytes) which the reader goroutine reads while the FSM is still handling the OPEN (OnOpenMessage yields); at most 1 delay; the capabilities recorded by OnOpenMessage are compared with the sent bytes after everything has quiesced")
+	verifDelayBound(1)
+	cfg := concreteConfig()
+	code := verifU8("capcode")
+	verifAssume(code != CAP_FOUR_OCTET_AS)
+	val := verifBuf("capval", 4, 4)
+	as := cfg.remoteAS
+	body := []byte{4, byte(as >> 8), byte(as), 0, 90, 10, 0, 0, 2,
+		16, 2, 6, CAP_FOUR_OCTET_AS, 4, byte(as >> 24), byte(as >> 16), byte(as >> 8), byte(as),
+		2, 6, code, 4, val[0], val[1], val[2], val[3]}
+	conn := newSymConn("c", nil, 0)
+	conn.addFrame(openMessageType, body)
+	next := uint8(updateMessageType)
+	if verifChoose("next-is-notification", 2) == 1 {
+		next = notificationMessageType
+	}
+	conn.addFrame(next, verifBuf("nextbody", 2, 32))
+	pl := newMonPlugin()
+	pl.yieldInCallbacks = true
+	p := mkPeer(cfg, pl)
+	f := fsmInOpenSent(p, conn)
+	to, err := f.openSent()
+	verifQuiesce()
+	verifAssert("valid-open-accepted", to == openConfirmState && err == nil)
+	verifAssert("onopenmessage-exactly-once", pl.nOpen == 1)
+	verifAssert("two-capabilities", len(pl.gotCaps) == 2)
+	if len(pl.gotCaps) == 2 {
+		c0, c1 := pl.gotCaps[0], pl.gotCaps[1]
+		verifAssert("first-capability-intact", c0.Code == CAP_FOUR_OCTET_AS && len(c0.Value) == 4 &&
+			verifAt(c0.Value, 0) == byte(as>>24) && verifAt(c0.Value, 1) == byte(as>>16) && verifAt(c0.Value, 2) == byte(as>>8) && verifAt(c0.Value, 3) == byte(as))
+		verifAssert("second-capability-code-intact", c1.Code == code)
+		verifAssertBytesEq("second-capability-bytes-intact", c1.Value, val)
+	}
+	verifCover("pipelined")
+}
